@@ -1,4 +1,348 @@
-import SafeC.Models.Copy
-/-! Property theorems for C20 (see DESIGN.md §4). -/
+import SafeC.Proofs.Alloc
+import SafeC.Proofs.AllocNorm
+import SafeC.Proofs.AllocTight
+/-!
+# Property theorems for C20 — running out of memory inside the library is an error, not a crash
+
+Statements are about `exec fails (skeleton features) s` for EVERY failure oracle `fails : Nat → Bool`
+(answering the running index of the allocation request), EVERY feature vector and EVERY entry state
+`s` (`Models/Alloc.lean`).  Vocabulary (`Proofs/Alloc.lean`):
+
+* `Safe r`      – the run does not fault: no use of a failed allocation, no invalid free;
+* `NoLeak s r`  – live blocks at return = live blocks at entry;
+* `Reported d s r` – if a request of this run was failed (`exec_nfail_iff`: iff the oracle fails an
+                  index in `[s.next, s'.next)`), the call returns its failure indication, the handler
+                  was called and (`d`: the function has a destination) dest was cleared;
+* `Holds d s r` – all three.
+
+`unrepaired` is the code before any repair, `Fixes` fields switch on the repairs of `fixes/*.diff`
+(`Alloc.current` says which of them the tree contains and is what the driver runs); the
+`*_fixed_C20` theorems are the full statement for the repaired code, the `_partial`/`_witness`
+pairs say what holds of the code as it is and where it breaks (= the known findings).
+-/
 namespace SafeC.Props.C20
+open SafeC SafeC.Alloc
+
+variable {fails : Nat → Bool}
+
+/-! ### the machine -/
+
+/-- Meta-theorem (every program): in a surviving run the failure counter moved exactly when the oracle
+failed one of the allocation requests the run made — this is what "some allocation failed" means in `Reported`. -/
+theorem alloc_failed_iff_oracle {α : Type} (p : Prog α) (s s' : St) (a : α) (h : exec fails p s = .ok (a, s')) :
+    s.nfail < s'.nfail ↔ ∃ i, s.next ≤ i ∧ i < s'.next ∧ fails i = true :=
+  exec_nfail_iff p s h
+
+/-- Meta-theorem (every program): a run depends on the failure oracle only through its answers to the requests the run
+makes — two oracles that agree on `[s.next, s'.next)` give the same run. -/
+theorem run_depends_on_asked_indices_only {α : Type} {fails' : Nat → Bool} (p : Prog α) (s s' : St) (a : α)
+    (h : exec fails p s = .ok (a, s')) (hag : ∀ i, s.next ≤ i → i < s'.next → fails' i = fails i) :
+    exec fails' p s = .ok (a, s') :=
+  exec_oracle_congr p s h hag
+
+/-! ### wcsicmp_s, wcsnatcmp_s: the two fold buffers -/
+
+/-- FULL (code as it is): for every failure oracle, every feature vector (entry error?, fold?, wcsfc_s of either
+operand fails?, comparison ends in an error?) and every entry state, wcsicmp_s / wcsnatcmp_s do not fault, leave
+no block allocated, and report a failed allocation (the NULL buffer is caught by wcsfc_s's own null check). -/
+theorem fold_C20 (x : FoldFeat) (s : St) : Holds false s (exec fails (foldProg x) s) :=
+  fold_holds x s
+
+example : ∃ x : FoldFeat, x.fold = true ∧ x.entryErr = false := ⟨⟨false, true, false, true, false⟩, rfl, rfl⟩
+
+/-! ### sprintf_s, snprintf_s, vsprintf_s, vsnprintf_s, printf_s, fprintf_s, vfprintf_s: the printf engine -/
+
+/-- FULL (code as it is): whenever an engine-based printf_s function survives a failed allocation (only the `%ls`
+staging buffer can), it returns a negative value, the handler was called, and (string variants) dest was cleared. -/
+theorem printf_reported (w : Wrap) (entry : Bool) (segs : List Seg) (s : St) :
+    Reported (w != .stream) s (exec fails (printfProg unrepaired w entry segs) s) := by
+  intro o s' h hlt
+  rcases printf_spec (fails := fails) unrepaired w entry segs s with ⟨o1, s1, e1, _, e3⟩ | ⟨e1, _⟩
+  · rw [e1] at h; cases h
+    have := e3 hlt
+    exact ⟨this.1, this.2.1, fun hd => this.2.2 (by simpa using hd)⟩
+  · rw [e1] at h; cases h
+
+/-- PARTIAL (code as it is): if no `%Lf %Le %Lg %La %a` directive is followed by more format text (the only case
+in which the engine copies the directive to the heap), no failure oracle makes the call fault.
+Full statement (false today, see the witness): `Safe` for every format. -/
+theorem printf_safe_partial (w : Wrap) (entry : Bool) (segs : List Seg) (s : St)
+    (h : ∀ err, Seg.fl true err ∉ segs) : Safe (exec fails (printfProg unrepaired w entry segs) s) := by
+  rcases printf_spec (fails := fails) unrepaired w entry segs s with ⟨o1, s1, e1, _⟩ | ⟨_, _, _, err, e4⟩
+  · exact ⟨o1, s1, e1⟩
+  · exact absurd e4 (h err)
+
+example : ∀ err, Seg.fl true err ∉ [Seg.plain .none, .ls .none, .fl false false] := by decide
+
+/-- WITNESS: `sprintf_s(dest, dmax, "%Lf!", x)` with the format-copy malloc failed dereferences NULL. -/
+theorem printf_safe_witness :
+    ¬ Safe (exec (fun _ => true) (printfProg unrepaired .vsn false [.fl true false, .plain .none]) {}) :=
+  not_safe_of_null (by decide)
+
+/-- PARTIAL (code as it is): if no `%ls` argument fails to convert, every return leaves the live blocks as they were.
+Full statement (false today, see the witness): `NoLeak` for every format and argument list. -/
+theorem printf_noleak_partial (w : Wrap) (entry : Bool) (segs : List Seg) (s : St)
+    (h : Seg.ls .conv ∉ segs) : NoLeak s (exec fails (printfProg unrepaired w entry segs) s) := by
+  intro o s' he
+  rcases printf_spec (fails := fails) unrepaired w entry segs s with ⟨o1, s1, e1, e2, _⟩ | ⟨e1, _⟩
+  · rw [e1] at he; cases he
+    rcases e2 with e2 | ⟨e2, _⟩
+    · exact e2
+    · exact absurd e2 h
+  · rw [e1] at he; cases he
+
+example : Seg.ls .conv ∉ [Seg.ls .none, .ls .tooLong, .fl true false] := by decide
+
+/-- WITNESS: `sprintf_s(dest, dmax, "%ls", L"")` (wcstombs_s reports an error) returns with the staging buffer
+still allocated although no allocation failed — and with a non-negative return value. -/
+theorem printf_noleak_witness :
+    ¬ NoLeak {} (exec (fun _ => false) (printfProg unrepaired .vsn false [.ls .conv]) {}) :=
+  not_noleak_of (l := [0]) (by decide) (by decide)
+
+/-- FULL for the repaired engine (fixes/vsnprintf_s-alloc.diff: format copies checked, `%ls` buffer freed and a negative
+code returned on conversion failure): every engine-based printf_s function, every format, every oracle: no fault,
+no leak, a failed allocation is reported (and dest cleared for the string variants). -/
+theorem printf_fixed_C20 (fx : Fixes) (h1 : fx.fmtcopy = true) (h2 : fx.lsconv = true) (w : Wrap) (entry : Bool)
+    (segs : List Seg) (s : St) : Holds (w != .stream) s (exec fails (printfProg fx w entry segs) s) := by
+  rcases printf_spec (fails := fails) fx w entry segs s with ⟨o1, s1, e1, e2, e3⟩ | ⟨_, e2, _⟩
+  · refine ⟨⟨o1, s1, e1⟩, ?_, ?_⟩
+    · intro o s' he; rw [e1] at he; cases he
+      rcases e2 with e2 | ⟨_, e2, _⟩
+      · exact e2
+      · rw [h2] at e2; cases e2
+    · intro o s' he hlt; rw [e1] at he; cases he
+      have := e3 hlt
+      exact ⟨this.1, this.2.1, fun hd => this.2.2 (by simpa using hd)⟩
+  · rw [h1] at e2; cases e2
+
+example : allFixed.fmtcopy = true ∧ allFixed.lsconv = true := ⟨rfl, rfl⟩
+
+/-! ### swprintf_s, vswprintf_s, snwprintf_s, vsnwprintf_s: the no-space probe -/
+
+/-- FULL (code as it is): the probe buffer is freed on every path that survives: no wide printf_s function leaks. -/
+theorem wprobe_noleak (fx : Fixes) (f : WFn) (x : WFeat) (s : St) : NoLeak s (exec fails (wprobeProg fx f x) s) := by
+  intro o s' he
+  have := wprobe_spec' (fails := fails) fx f x s
+  rw [he] at this
+  exact this.1
+
+/-- PARTIAL (code as it is): vswprintf_s, and every call that does not reach the heap probe (dmax < 512, or the text
+fits, or an entry check fails), cannot fault.  Full statement (false today): `Safe` for all four functions. -/
+theorem wprobe_safe_partial (f : WFn) (x : WFeat) (s : St)
+    (h : f = .vsw ∨ x.big = false ∨ x.fits = true ∨ x.entryErr = true) :
+    Safe (exec fails (wprobeProg unrepaired f x) s) := by
+  have := wprobe_spec' (fails := fails) unrepaired f x s
+  cases he : exec fails (wprobeProg unrepaired f x) s with
+  | ok v => exact ⟨v.1, v.2, rfl⟩
+  | error e =>
+    rw [he] at this
+    obtain ⟨_, _, h3, h4, h5, h6, _⟩ := this
+    rcases h with h | h | h | h
+    · exact absurd h h3
+    · rw [h4] at h; cases h
+    · rw [h5] at h; cases h
+    · rw [h6] at h; cases h
+
+example : (WFn.sw = .vsw ∨ (⟨false, false, false, false, .neg⟩ : WFeat).big = false ∨ False ∨ False) := Or.inr (Or.inl rfl)
+
+/-- WITNESS: `swprintf_s(dest, 600, L"%ls", <700 chars>)` with the probe malloc failed hands NULL to vswprintf. -/
+theorem wprobe_safe_witness :
+    ¬ Safe (exec (fun _ => true) (wprobeProg unrepaired .sw ⟨false, false, false, true, .neg⟩) {}) :=
+  not_safe_of_null (by decide)
+
+/-- PARTIAL (code as it is): swprintf_s, snwprintf_s and vsnwprintf_s never survive a failed allocation unreported
+(they do not survive it at all).  Full statement (false today for vswprintf_s, see the witness): `Reported` for all four. -/
+theorem wprobe_reported_partial (f : WFn) (x : WFeat) (s : St) (h : f ≠ .vsw) :
+    Reported true s (exec fails (wprobeProg unrepaired f x) s) := by
+  intro o s' he hlt
+  have := wprobe_spec' (fails := fails) unrepaired f x s
+  rw [he] at this
+  rcases this.2 hlt with ⟨h1, h2, h3⟩ | ⟨h1, _⟩
+  · exact ⟨h1, h2, fun _ => h3⟩
+  · exact absurd h1 h
+
+example : WFn.snw ≠ .vsw := by decide
+
+/-- WITNESS: vswprintf_s with the probe malloc failed returns an error (failed = true) but with 0 handler calls and
+dest not cleared. -/
+theorem wprobe_reported_witness :
+    verdict (exec (fun _ => true) (wprobeProg unrepaired .vsw ⟨false, false, false, true, .neg⟩) {}) = some (true, 0, false, 1) := by
+  decide
+
+/-- FULL for the repaired probes (fixes/wprintf-probe-alloc.diff): all four wide printf_s functions, every feature vector, every
+oracle: no fault, no leak, a failed probe allocation is reported with dest cleared. -/
+theorem wprobe_fixed_C20 (fx : Fixes) (h1 : fx.wprobe = true) (h2 : fx.vswrep = true) (f : WFn) (x : WFeat) (s : St) :
+    Holds true s (exec fails (wprobeProg fx f x) s) := by
+  have := wprobe_spec' (fails := fails) fx f x s
+  cases he : exec fails (wprobeProg fx f x) s with
+  | error e => rw [he] at this; rw [h1] at this; exact absurd this.2.1 (by simp)
+  | ok v =>
+    rcases v with ⟨o, s'⟩
+    rw [he] at this
+    refine ⟨⟨o, s', rfl⟩, ?_, ?_⟩
+    · intro o1 s1 h; cases h; exact this.1
+    · intro o1 s1 h hlt; cases h
+      rcases this.2 hlt with ⟨a, b, c⟩ | ⟨_, a, _⟩
+      · exact ⟨a, b, fun _ => c⟩
+      · rw [h2] at a; cases a
+
+/-! ### wcsnorm_reorder_s -/
+
+/-- FULL for the repaired code (fixes/wcsnorm-alloc.diff: malloc/realloc checked, seq_ext released on every exit): for
+every oracle, every mark pattern of the source (any number and length of combining sequences, i.e. any number of
+growth steps), every dmax and every entry state: no fault, no leak on any exit, a failed allocation is reported
+with dest cleared. -/
+theorem reorder_fixed_C20 (fx : Fixes) (h : fx.reorder = true) (dmax : Nat) (cells : List Bool) (s : St) :
+    Holds true s (exec fails (reorderProg fx .caller dmax cells) s) := by
+  have := (wp_iff _ _ _).1 (reorderProg_wp (fails := fails) (L := s.live) fx .caller dmax cells s (Or.inl h) rfl trivial)
+  obtain ⟨o, s', he, _, p2, p3, _⟩ := this
+  rw [h] at p2
+  refine ⟨⟨o, s', he⟩, ?_, ?_⟩
+  · intro o1 s1 h1; rw [he] at h1; cases h1; exact p2 rfl
+  · intro o1 s1 h1 hlt; rw [he] at h1; cases h1
+    have := p3 hlt; exact ⟨this.1, this.2.1, fun _ => this.2.2⟩
+
+/-- PARTIAL (code as it is): when no allocation request fails the call does not fault, for every mark pattern and
+dmax.  Full statement (false today, see the witness): `Safe` under every oracle. -/
+theorem reorder_safe_partial (hnf : NoFail fails) (dmax : Nat) (cells : List Bool) (s : St) :
+    Safe (exec fails (reorderProg unrepaired .caller dmax cells) s) := by
+  have := (wp_iff _ _ _).1 (reorderProg_wp (fails := fails) (L := s.live) unrepaired .caller dmax cells s (Or.inr hnf) rfl trivial)
+  obtain ⟨o, s', he, _⟩ := this
+  exact ⟨o, s', he⟩
+
+example : NoFail (fun _ => false) := fun _ => rfl
+
+/-- WITNESS: a starter followed by 11 combining marks, the malloc for the 11th refused: memcpy through NULL. -/
+theorem reorder_safe_witness :
+    ¬ Safe (exec (fun _ => true) (reorderProg unrepaired .caller 64 (false :: List.replicate 11 true)) {}) :=
+  not_safe_of_null (by decide +kernel)
+
+/-- FULL (code as it is) — tightness of `reorder_safe_partial`: under EVERY oracle, a run of the unrepaired
+wcsnorm_reorder_s that survives contains no failed allocation request: a refused malloc is dereferenced at once
+(memcpy), a refused realloc at the next store.  (So `Reported` holds of it only vacuously.) -/
+theorem reorder_failure_never_survives (dmax : Nat) (cells : List Bool) (s s' : St) (o : Out)
+    (he : exec fails (reorderProg unrepaired .caller dmax cells) s = .ok (o, s')) :
+    ¬ ∃ i, s.next ≤ i ∧ i < s'.next ∧ fails i = true := by
+  intro hex
+  have h1 := (exec_nfail_iff _ _ he).2 hex
+  have h2 := keeps_reorderProg unrepaired rfl .caller dmax cells fails s o s' he
+  omega
+
+/-- PARTIAL (code as it is, EVERY oracle): a call that returns success leaves no block behind.
+Full statement (false today, see the witness): `NoLeak` on every return, including the error returns. -/
+theorem reorder_noleak_partial (dmax : Nat) (cells : List Bool) (s s' : St) (o : Out)
+    (he : exec fails (reorderProg unrepaired .caller dmax cells) s = .ok (o, s')) (hok : o.failed = false) :
+    s'.live = s.live := by
+  have he' := keeps_transfer (keeps_reorderProg unrepaired rfl .caller dmax cells) he
+  have := (wp_iff _ _ _).1 (reorderProg_wp (fails := fun _ => false) (L := s.live) unrepaired .caller dmax cells s (Or.inr (fun _ => rfl)) rfl trivial)
+  obtain ⟨o1, s1, he1, p1, _⟩ := this
+  rw [he'] at he1; cases he1
+  exact p1 hok
+
+/-- WITNESS: 12 marks on one starter into dmax = 13: the "dmax too small" exit returns ESNOSPC with seq_ext still
+allocated; no allocation failed. -/
+theorem reorder_noleak_witness :
+    ¬ NoLeak {} (exec (fun _ => false) (reorderProg unrepaired .caller 13 (false :: List.replicate 12 true)) {}) :=
+  not_noleak_of (l := [0]) (by decide +kernel) (by decide)
+
+/-! ### wcsnorm_compose_s -/
+
+/-- FULL for the repaired code: as `reorder_fixed_C20`, for every sequence of (mark?, absorbed-by-composition?) cells. -/
+theorem compose_fixed_C20 (fx : Fixes) (h : fx.compose = true) (dmax : Nat) (cells : List CCell) (s : St) :
+    Holds true s (exec fails (composeProg fx .caller .caller dmax cells) s) := by
+  have := (wp_iff _ _ _).1 (composeProg_wp (fails := fails) (L := s.live) fx .caller .caller dmax cells s (Or.inl h) rfl trivial trivial)
+  obtain ⟨o, s', he, _, p2, p3, _⟩ := this
+  rw [h] at p2
+  refine ⟨⟨o, s', he⟩, ?_, ?_⟩
+  · intro o1 s1 h1; rw [he] at h1; cases h1; exact p2 rfl
+  · intro o1 s1 h1 hlt; rw [he] at h1; cases h1
+    have := p3 hlt; exact ⟨this.1, this.2.1, fun _ => this.2.2⟩
+
+/-- PARTIAL (code as it is): no fault when no allocation request fails.  Full statement false today (witness). -/
+theorem compose_safe_partial (hnf : NoFail fails) (dmax : Nat) (cells : List CCell) (s : St) :
+    Safe (exec fails (composeProg unrepaired .caller .caller dmax cells) s) := by
+  have := (wp_iff _ _ _).1 (composeProg_wp (fails := fails) (L := s.live) unrepaired .caller .caller dmax cells s (Or.inr hnf) rfl trivial trivial)
+  obtain ⟨o, s', he, _⟩ := this
+  exact ⟨o, s', he⟩
+
+/-- WITNESS: a starter with 16 uncomposable marks, the realloc for the 16th refused: the old block is lost and the
+next store goes through NULL. -/
+theorem compose_safe_witness :
+    ¬ Safe (exec (fun i => i == 1) (composeProg unrepaired .caller .caller 64 (⟨false, false⟩ :: List.replicate 16 ⟨true, false⟩)) {}) :=
+  not_safe_of_null (by decide +kernel)
+
+/-- FULL (code as it is) — tightness of `compose_safe_partial`: under EVERY oracle, a surviving run of the unrepaired
+wcsnorm_compose_s contains no failed allocation request. -/
+theorem compose_failure_never_survives (dmax : Nat) (cells : List CCell) (s s' : St) (o : Out)
+    (he : exec fails (composeProg unrepaired .caller .caller dmax cells) s = .ok (o, s')) :
+    ¬ ∃ i, s.next ≤ i ∧ i < s'.next ∧ fails i = true := by
+  intro hex
+  have h1 := (exec_nfail_iff _ _ he).2 hex
+  have h2 := keeps_composeProg unrepaired rfl .caller .caller dmax cells fails s o s' he
+  omega
+
+/-- PARTIAL (code as it is, EVERY oracle): a successful return leaves no block behind.  Full statement false today (witness). -/
+theorem compose_noleak_partial (dmax : Nat) (cells : List CCell) (s s' : St) (o : Out)
+    (he : exec fails (composeProg unrepaired .caller .caller dmax cells) s = .ok (o, s')) (hok : o.failed = false) :
+    s'.live = s.live := by
+  have he' := keeps_transfer (keeps_composeProg unrepaired rfl .caller .caller dmax cells) he
+  have := (wp_iff _ _ _).1 (composeProg_wp (fails := fun _ => false) (L := s.live) unrepaired .caller .caller dmax cells s (Or.inr (fun _ => rfl)) rfl trivial trivial)
+  obtain ⟨o1, s1, he1, p1, _⟩ := this
+  rw [he'] at he1; cases he1
+  exact p1 hok
+
+/-- WITNESS: a starter with 12 uncomposable marks into dmax = 1: the ESNOSPC exit behind the starter leaks seq_ext. -/
+theorem compose_noleak_witness :
+    ¬ NoLeak {} (exec (fun _ => false) (composeProg unrepaired .caller .caller 1 (⟨false, false⟩ :: List.replicate 12 ⟨true, false⟩)) {}) :=
+  not_noleak_of (l := [0]) (by decide +kernel) (by decide)
+
+/-! ### wcsnorm_s -/
+
+/-- FULL for the repaired code (scratch malloc checked + repaired reorder/compose): every feature vector (decomposition
+error?, mode, dmax, decomposed length, mark pattern, composition pattern), every oracle, every entry state: no fault;
+live blocks at return = live blocks at entry; a failed allocation (scratch, sequence malloc or realloc, in either step)
+is reported with dest cleared. -/
+theorem norm_fixed_C20 (fx : Fixes) (h1 : fx.normtmp = true) (h2 : fx.reorder = true) (h3 : fx.compose = true)
+    (x : NormFeat) (s : St) : Holds true s (exec fails (normProg fx x) s) := by
+  have := (wp_iff _ _ _).1 (normProg_wp (fails := fails) fx x s (Or.inl ⟨h1, h2, h3⟩))
+  obtain ⟨o, s', he, _, p2, p3⟩ := this
+  rw [h1, h2, h3] at p2
+  refine ⟨⟨o, s', he⟩, ?_, ?_⟩
+  · intro o1 s1 h; rw [he] at h; cases h; exact p2 rfl
+  · intro o1 s1 h hlt; rw [he] at h; cases h
+    have := p3 hlt; exact ⟨this.1, this.2.1, fun _ => this.2.2⟩
+
+/-- PARTIAL (code as it is): no fault when no allocation request fails.  Full statement false today (witness). -/
+theorem norm_safe_partial (hnf : NoFail fails) (x : NormFeat) (s : St) : Safe (exec fails (normProg unrepaired x) s) := by
+  have := (wp_iff _ _ _).1 (normProg_wp (fails := fails) unrepaired x s (Or.inr hnf))
+  obtain ⟨o, s', he, _⟩ := this
+  exact ⟨o, s', he⟩
+
+/-- WITNESS: a text of 126 starters (scratch of 128 cells from malloc), the malloc refused: the reorder step writes
+through NULL. -/
+theorem norm_safe_witness :
+    ¬ Safe (exec (fun _ => true) (normProg unrepaired ⟨false, .nfc, 200, 126, List.replicate 126 false, List.replicate 126 ⟨false, false⟩⟩) {}) :=
+  not_safe_of_null (by decide +kernel)
+
+/-- PARTIAL (code as it is, no request failing): a successful wcsnorm_s leaves no block behind (scratch and both
+sequence extensions released).  The full statement needs the repaired reorder/compose exits (`norm_fixed_C20`). -/
+theorem norm_noleak_partial (hnf : NoFail fails) (x : NormFeat) (s s' : St) (o : Out)
+    (he : exec fails (normProg unrepaired x) s = .ok (o, s')) (hok : o.failed = false) : s'.live = s.live := by
+  have := (wp_iff _ _ _).1 (normProg_wp (fails := fails) unrepaired x s (Or.inr hnf))
+  obtain ⟨o1, s1, he1, p1, _⟩ := this
+  rw [he] at he1; cases he1
+  exact p1 hok
+
+/-- non-vacuity: such a run exists (126 starters, scratch from malloc, success, nothing left allocated) -/
+example : verdict (exec (fun _ => false) (normProg unrepaired ⟨false, .nfc, 200, 126, List.replicate 126 false, List.replicate 126 ⟨false, false⟩⟩) {}) = some (false, 0, false, 0) ∧
+    liveAtReturn (exec (fun _ => false) (normProg unrepaired ⟨false, .nfc, 200, 126, List.replicate 126 false, List.replicate 126 ⟨false, false⟩⟩) {}) = some [] := by
+  constructor <;> decide +kernel
+
+/-- remark: unlike the two loops, the unrepaired wcsnorm_s CAN survive a refused scratch malloc — when the decomposed text
+has more than RSIZE_MAX_WSTR - 2 cells the reorder step rejects its (NULL) destination on the size check before
+touching it, and the failure is reported (handler, dest cleared, nothing leaked): failed = true, 1 handler call,
+cleared, 1 failed request. -/
+example : verdict (exec (fun _ => true) (normProg unrepaired ⟨false, .nfc, 1024, 1023, List.replicate 1023 false, []⟩) {}) = some (true, 1, true, 1) := by
+  decide +kernel
+
 end SafeC.Props.C20
